@@ -31,14 +31,20 @@ vars == <<ps, ms, tbl>>
 ---------------------------------------------------------------------------
 (* Property layer, part 1: RFC 6811 validation *)
 
-PLen(p) == Len(PfxInfo[p].bits)
-
 (* "covering ROA": the ROA prefix contains the route prefix (RFC 6811 s.2: the ROA prefix length
    is not longer and the leading bits are equal) *)
-Covers(p, q) == LET P == PfxInfo[p]  Q == PfxInfo[q] IN
-                  /\ P.fam = Q.fam
-                  /\ Len(P.bits) <= Len(Q.bits)
-                  /\ SubSeq(Q.bits, 1, Len(P.bits)) = P.bits
+CoversDef(p, q) == LET P == PfxInfo[p]  Q == PfxInfo[q] IN
+                     /\ P.fam = Q.fam
+                     /\ Len(P.bits) <= Len(Q.bits)
+                     /\ SubSeq(Q.bits, 1, Len(P.bits)) = P.bits
+(* the same, tabulated once: TLC re-evaluates a definition on every use, so the relation and the
+   prefix lengths are computed at start-up and kept in TLC registers (an evaluation cache only) *)
+CoverSet == {x \in (DOMAIN PfxInfo) \X (DOMAIN PfxInfo) : CoversDef(x[1], x[2])}
+PLenTab  == [p \in DOMAIN PfxInfo |-> Len(PfxInfo[p].bits)]
+ASSUME TLCSet(16, CoverSet)
+ASSUME TLCSet(17, PLenTab)
+Covers(p, q) == <<p, q>> \in TLCGet(16)
+PLen(p) == TLCGet(17)[p]
 
 LastSeg(r) == r.path[Len(r.path)]
 
